@@ -37,6 +37,42 @@ Proof.
   - rewrite IHa; [reflexivity|]. intros cs Hc. apply H. exact Hc.
 Qed.
 
+(* derivatives never invent a byte class *)
+Lemma alt_ins_csets x r : forall cs, In cs (csets (alt_ins x r)) -> In cs (csets x) \/ In cs (csets r).
+Proof.
+  assert (Base : forall y cs, In cs (csets (match re_cmp x y with Eq => y | Lt => Alt x y | Gt => Alt y x end)) -> In cs (csets x) \/ In cs (csets y)).
+  { intros y cs. destruct (re_cmp x y); cbn [csets]; rewrite ?in_app_iff; tauto. }
+  induction r as [| |c0|a1 IH1 a2 IH2|a1 IH1 a2 IH2|a1 IH1]; intros cs; try apply Base.
+  cbn [alt_ins]. destruct (re_cmp x a1); cbn [csets]; rewrite ?in_app_iff; try tauto.
+  intros [H|H]; [tauto|]. apply IH2 in H. tauto.
+Qed.
+Lemma mkalt_csets a : forall b cs, In cs (csets (mkalt a b)) -> In cs (csets a) \/ In cs (csets b).
+Proof.
+  assert (Base : forall x b cs, In cs (csets (match b with Empty => x | _ => alt_ins x b end)) -> In cs (csets x) \/ In cs (csets b)).
+  { intros x b cs. destruct b; try apply alt_ins_csets. tauto. }
+  induction a as [| |c0|a1 IH1 a2 IH2|a1 IH1 a2 IH2|a1 IH1]; intros b cs; try apply Base.
+  - cbn [mkalt]. tauto.
+  - cbn [mkalt].
+    assert (K : In cs (csets (alt_ins a1 (mkalt a2 b))) -> In cs (csets (Alt a1 a2)) \/ In cs (csets b)).
+    { intros H. apply alt_ins_csets in H. cbn [csets]. rewrite in_app_iff. destruct H as [H|H]; [tauto|]. apply IH2 in H. tauto. }
+    destruct a1; try exact K.
+    intros H. apply IH2 in H. cbn [csets]. rewrite in_app_iff. tauto.
+Qed.
+Lemma mkcat_csets a b cs : In cs (csets (mkcat a b)) -> In cs (csets a) \/ In cs (csets b).
+Proof. destruct a; destruct b; cbn [mkcat csets]; rewrite ?in_app_iff; cbn [In]; tauto. Qed.
+Lemma deriv_csets c r : forall cs, In cs (csets (deriv c r)) -> In cs (csets r).
+Proof.
+  induction r as [| |c0|a IHa b IHb|a IHa b IHb|a IHa]; intros cs; cbn [deriv].
+  - tauto.
+  - cbn [csets In]. tauto.
+  - destruct (cs_mem c c0); cbn [csets In]; tauto.
+  - intros H. apply mkalt_csets in H. cbn [csets]. rewrite in_app_iff. destruct H as [H|H].
+    + apply mkcat_csets in H. destruct H as [H|H]; [left; apply IHa; exact H | right; exact H].
+    + destruct (nullable a); [right; apply IHb; exact H | cbn [csets In] in H; tauto].
+  - intros H. apply mkalt_csets in H. cbn [csets]. rewrite in_app_iff. destruct H as [H|H]; [left; apply IHa | right; apply IHb]; exact H.
+  - intros H. apply mkcat_csets in H. cbn [csets] in *. destruct H as [H|H]; [apply IHa; exact H | exact H].
+Qed.
+
 Definition cset_eqb (a b : cset) : bool := match cmp_cset a b with Eq => true | _ => false end.
 Lemma cset_eqb_eq a b : cset_eqb a b = true -> a = b.
 Proof. unfold cset_eqb. destruct (cmp_cset a b) eqn:E; try discriminate. intros _. apply cmp_cset_eq. exact E. Qed.
@@ -63,23 +99,23 @@ Proof.
 Qed.
 
 (* ---------- the table of visited pairs ---------- *)
-(* hash without division: multiply by small constants and mask to 24 bits *)
+(* a cheap hash (additions, doublings and a 24-bit mask; no multiplication or division) *)
 Definition HM : N := 16777215.
 Fixpoint hash_cs (cs : cset) : N :=
   match cs with
   | [] => 7
-  | p :: t => N.land (fst p * 131 + snd p * 31 + hash_cs t * 17 + 3) HM
+  | p :: t => N.land (fst p + N.double (snd p) + N.double (N.double (hash_cs t)) + 3) HM
   end.
 Fixpoint re_hash (r : re) : N :=
   match r with
   | Empty => 1
   | Eps => 2
-  | Chr cs => N.land (hash_cs cs * 5 + 11) HM
-  | Cat a b => N.land (re_hash a * 37 + re_hash b * 101 + 13) HM
-  | Alt a b => N.land (re_hash a * 43 + re_hash b * 107 + 17) HM
-  | Star a => N.land (re_hash a * 53 + 19) HM
+  | Chr cs => hash_cs cs
+  | Cat a b => N.land (re_hash a + N.double (re_hash b) + 3) HM
+  | Alt a b => N.land (N.double (N.double (re_hash a)) + re_hash b + 5) HM
+  | Star a => N.land (N.double (re_hash a) + 9) HM
   end.
-Definition pair_key (p : re * re) : positive := N.succ_pos (N.land (re_hash (fst p) * 61 + re_hash (snd p)) HM).
+Definition pair_key (p : re * re) : positive := N.succ_pos (N.land (N.double (N.double (N.double (re_hash (fst p)))) + re_hash (snd p)) HM).
 
 Definition table := PositiveMap.t (list (re * re)).
 Definition pair_eqb (p q : re * re) : bool := re_eqb (fst p) (fst q) && re_eqb (snd p) (snd q).
@@ -105,6 +141,9 @@ Variable reps : list N.
 
 Definition succs (p : re * re) : list (re * re) := map (fun c => (deriv c (fst p), deriv c (snd p))) reps.
 
+(* a pair whose left side is Empty needs no table entry *)
+Definition ok_pair (tbl : table) (p : re * re) : bool := is_empty (fst p) || mem tbl p.
+
 (* untrusted exploration *)
 Fixpoint explore (fuel : nat) (todo : list (re * re)) (tbl : table) : option table :=
   match fuel with
@@ -113,8 +152,7 @@ Fixpoint explore (fuel : nat) (todo : list (re * re)) (tbl : table) : option tab
     match todo with
     | [] => Some tbl
     | p :: todo' =>
-        if mem tbl p then explore f todo' tbl
-        else if is_empty (fst p) then explore f todo' (add tbl p)
+        if ok_pair tbl p then explore f todo' tbl
         else explore f (succs p ++ todo') (add tbl p)
     end
   end.
@@ -122,7 +160,7 @@ Fixpoint explore (fuel : nat) (todo : list (re * re)) (tbl : table) : option tab
 (* the checked condition *)
 Definition check_pair (tbl : table) (p : re * re) : bool :=
   is_empty (fst p) ||
-  (atoms_in atoms (fst p) && atoms_in atoms (snd p) && implb (nullable (fst p)) (nullable (snd p)) && forallb (mem tbl) (succs p)).
+  (implb (nullable (fst p)) (nullable (snd p)) && forallb (ok_pair tbl) (succs p)).
 Definition check (tbl : table) : bool :=
   forallb (fun kv => forallb (check_pair tbl) (snd kv)) (PositiveMap.elements tbl).
 
@@ -138,27 +176,39 @@ Qed.
 Hypothesis Hreps : reps_ok atoms reps = true.
 
 Theorem check_sound tbl : check tbl = true ->
-  forall s a b, mem tbl (a, b) = true -> bytes_lt256 s -> matches a s -> matches b s.
+  forall s a b, mem tbl (a, b) = true ->
+  (forall cs, In cs (csets a) -> In cs atoms) -> (forall cs, In cs (csets b) -> In cs atoms) ->
+  bytes_lt256 s -> matches a s -> matches b s.
 Proof.
-  intros Hc. induction s as [|c s IH]; intros a b Hm Hb Ha.
+  intros Hc. induction s as [|c s IH]; intros a b Hm Aa Ab Hb Ha.
   - pose proof (check_mem tbl (a, b) Hc Hm) as K. unfold check_pair in K. simpl in K.
     apply orb_true_iff in K. destruct K as [K|K].
     + destruct a; try discriminate. exfalso. eapply empty_inv; eauto.
-    + rewrite !andb_true_iff in K. destruct K as [[[_ _] K] _].
+    + rewrite !andb_true_iff in K. destruct K as [K _].
       apply nullable_iff in Ha. rewrite Ha in K. simpl in K. apply nullable_iff. exact K.
   - pose proof (check_mem tbl (a, b) Hc Hm) as K. unfold check_pair in K. simpl in K.
     apply orb_true_iff in K. destruct K as [K|K].
     + destruct a; try discriminate. exfalso. eapply empty_inv; eauto.
-    + rewrite !andb_true_iff in K. destruct K as [[[Ka Kb] _] Ks].
+    + rewrite !andb_true_iff in K. destruct K as [_ Ks].
       inversion Hb as [|? ? Hc1 Hb']; subst.
       destruct (reps_ok_spec atoms reps c Hreps Hc1) as [c' [Hin Hsig]].
       assert (Ea : deriv c a = deriv c' a).
-      { apply deriv_ext. intros cs Hcs. apply Hsig. exact (atoms_in_spec atoms a Ka cs Hcs). }
+      { apply deriv_ext. intros cs Hcs. apply Hsig. apply Aa. exact Hcs. }
       assert (Eb : deriv c b = deriv c' b).
-      { apply deriv_ext. intros cs Hcs. apply Hsig. exact (atoms_in_spec atoms b Kb cs Hcs). }
-      apply deriv_iff. rewrite Eb. apply (IH (deriv c' a) (deriv c' b)); [|exact Hb'|rewrite <- Ea; apply deriv_iff; exact Ha].
-      rewrite forallb_forall in Ks. apply Ks. unfold succs. simpl.
-      apply (in_map (fun c0 => (deriv c0 a, deriv c0 b)) reps c' Hin).
+      { apply deriv_ext. intros cs Hcs. apply Hsig. apply Ab. exact Hcs. }
+      apply deriv_iff. rewrite Eb.
+      assert (Ko : ok_pair tbl (deriv c' a, deriv c' b) = true).
+      { rewrite forallb_forall in Ks. apply Ks. unfold succs. simpl.
+        apply (in_map (fun c0 => (deriv c0 a, deriv c0 b)) reps c' Hin). }
+      assert (Hd : matches (deriv c' a) s) by (rewrite <- Ea; apply deriv_iff; exact Ha).
+      unfold ok_pair in Ko. simpl in Ko. apply orb_true_iff in Ko. destruct Ko as [Ko|Ko].
+      { destruct (deriv c' a); try discriminate. exfalso. eapply empty_inv; eauto. }
+      apply (IH (deriv c' a) (deriv c' b)).
+      * exact Ko.
+      * intros cs Hcs. apply Aa. eapply deriv_csets; eauto.
+      * intros cs Hcs. apply Ab. eapply deriv_csets; eauto.
+      * exact Hb'.
+      * exact Hd.
 Qed.
 
 End Check.
@@ -184,7 +234,7 @@ Definition incl_auto (fuel : nat) (a b : re) : bool :=
   let a' := norm a in
   let b' := norm b in
   match incl_run fuel a' b' with
-  | Some (atoms, reps, tbl) => reps_ok atoms reps && mem tbl (a', b') && check atoms reps tbl
+  | Some (atoms, reps, tbl) => reps_ok atoms reps && atoms_in atoms a' && atoms_in atoms b' && ok_pair tbl (a', b') && check reps tbl
   | None => false
   end.
 
@@ -192,8 +242,15 @@ Theorem incl_auto_sound fuel a b : incl_auto fuel a b = true ->
   forall s, bytes_lt256 s -> matches a s -> matches b s.
 Proof.
   unfold incl_auto. destruct (incl_run fuel (norm a) (norm b)) as [[[atoms reps] tbl]|]; [|discriminate].
-  rewrite !andb_true_iff. intros [[H1 H2] H3] s Hs Ha.
-  apply norm_iff. eapply check_sound; eauto. apply norm_iff. exact Ha.
+  rewrite !andb_true_iff. intros [[[[H1 Ha1] Hb1] H2] H3] s Hs Ha.
+  assert (Hn : matches (norm a) s) by (apply norm_iff; exact Ha).
+  unfold ok_pair in H2. simpl in H2. apply orb_true_iff in H2. destruct H2 as [H2|H2].
+  { destruct (norm a); try discriminate. exfalso. eapply empty_inv; eauto. }
+  apply norm_iff. eapply (check_sound atoms reps H1 tbl H3 s (norm a) (norm b) H2).
+  - apply atoms_in_spec. exact Ha1.
+  - apply atoms_in_spec. exact Hb1.
+  - exact Hs.
+  - apply norm_iff. exact Ha.
 Qed.
 
 (* number of pairs in a table (reporting only) *)
